@@ -30,6 +30,8 @@ mod build;
 
 mod cmdline;
 mod token_check;
+#[cfg(sccache_verif)]
+mod verif_driver;
 
 use cmdline::{AuthSubcommand, Command};
 
@@ -41,6 +43,10 @@ pub const INSECURE_DIST_SERVER_TOKEN: &str = "dangerously_insecure_server";
     target_os = "freebsd"
 ))]
 fn main() {
+    #[cfg(sccache_verif)]
+    if let Ok(spec) = env::var("SCCACHE_DIST_VERIF") {
+        std::process::exit(verif_driver::run(&spec));
+    }
     init_logging();
 
     let incr_env_strs = ["CARGO_BUILD_INCREMENTAL", "CARGO_INCREMENTAL"];
